@@ -22,7 +22,7 @@ def claimed():
 
 def run_one(name, all_props, props_claimed):
     d = os.path.join(SEEDED, name)
-    meta = json.load(open(os.path.join(d, 'meta.json')))
+    meta = json.load(open(os.path.join(d, 'meta.json'))) if os.path.isdir(d) else {}
     pid = meta['property']
     tmp = tempfile.mkdtemp(prefix='seed-', dir='/tmp')
     try:
@@ -64,7 +64,7 @@ def run_one(name, all_props, props_claimed):
 def main():
     args = sys.argv[1:]
     all_props = '--all-props' in args
-    names = [a for a in args if not a.startswith('--')] or sorted(os.listdir(SEEDED))
+    names = [a for a in args if not a.startswith('--')] or sorted(n for n in os.listdir(SEEDED) if os.path.isdir(os.path.join(SEEDED, n)))
     pc = claimed()
     tally = {}
     with ThreadPoolExecutor(12) as ex:
